@@ -91,11 +91,20 @@ def roundtrip_cmds(chk, backends, thorough, mode, emax_fn=None, xor_tables=None)
                 i += 1
                 L = len_classes(be, k)[(k + m + i) % 6]
                 cmds.append(sweep_cmd(be, k, m, m, 1 + i % 2, L, _seed_of(chk, i), 0, m, 60 if not thorough else 300, mode))
+            if not thorough:
+                # a few large inputs in the quick tier too (chunked copies, 32-bit sizes): 4 KiB + 1, 64 KiB + 1, 1 MiB - 3
+                for j, ((k, m), L) in enumerate([((4, 2), 4097), ((10, 4), 65537), ((3, 2), (1 << 20) - 3)]):
+                    i += 1
+                    cmds.append(sweep_cmd(be, k, m, m, 1 + j % 2, L, _seed_of(chk, i), 1, m, 3, mode))
             if thorough:
                 # seeded large inputs
                 for j, (k, m) in enumerate([(4, 2), (10, 4), (15, 6), (8, 8)]):
                     i += 1
                     cmds.append(sweep_cmd(be, k, m, m, 2, (1 << 20) - 3 + j * 5, _seed_of(chk, i), 0, m, 4, mode))
+    if BE_XOR in backends and not thorough:
+        for j, ((k, m, hd), L) in enumerate([((5, 5, 3), 4099), ((10, 6, 4), 65541), ((6, 6, 4), (1 << 20) - 1)]):
+            i += 1
+            cmds.append(sweep_cmd(BE_XOR, k, m, hd, 1 + j % 2, L, _seed_of(chk, i), 1, hd - 1, 3, mode))
     if BE_XOR in backends and thorough:
         for j, (k, m, hd) in enumerate([(5, 5, 3), (10, 6, 4), (20, 6, 4)]):
             i += 1
